@@ -29,7 +29,7 @@ type c16Op struct {
 	Op      string `json:"op"` // create write close abort tombstone open scan burst
 	Slot    int    `json:"slot,omitempty"`
 	Draws   []int  `json:"draws,omitempty"`   // name-pool indices the next CreateFile attempts draw (then fresh names)
-	Payload int    `json:"payload,omitempty"` // 0..2 valid bloom files, 3 garbage, 4 empty
+	Payload int    `json:"payload,omitempty"` // 0..2 valid bloom files, 3 garbage, 4 empty, 5-6 large (70 KB, 300 KB)
 	Chunk   int    `json:"chunk,omitempty"`   // per-mille of the remaining payload to write
 	Target  int    `json:"target,omitempty"`  // index into the pointer history (mod its length)
 	N       int    `json:"n,omitempty"`       // burst size
@@ -74,13 +74,13 @@ func genC16() *rapid.Generator[c16Case] {
 				// in between
 				c.Ops = append(c.Ops, c16Op{Op: "failclose", Slot: unif(t, "slot", 4)})
 			case k < 5:
-				op := c16Op{Op: "create", Slot: unif(t, "slot", 4), Payload: unif(t, "payload", 5)}
+				op := c16Op{Op: "create", Slot: unif(t, "slot", 4), Payload: unif(t, "payload", 7)}
 				for j := rapid.IntRange(0, 3).Draw(t, "ndraws"); j > 0; j-- {
 					op.Draws = append(op.Draws, unif(t, "draw", 3))
 				}
 				c.Ops = append(c.Ops, op)
 			case k < 9:
-				c.Ops = append(c.Ops, c16Op{Op: "write", Slot: unif(t, "slot", 4), Chunk: pick(t, "chunk", []int{1000, 500, 100, 1, 0})})
+				c.Ops = append(c.Ops, c16Op{Op: "write", Slot: unif(t, "slot", 4), Chunk: pick(t, "chunk", []int{1000, 500, 100, 1, 0, 2, 1000})})
 			case k < 12:
 				c.Ops = append(c.Ops, c16Op{Op: "close", Slot: unif(t, "slot", 4)})
 			case k < 14:
@@ -133,6 +133,16 @@ func c16GetPayloads() ([][]byte, []bool) {
 		}
 		c16Payloads = append(c16Payloads, bytes.Repeat([]byte("garbage-"), 40), []byte{})
 		c16Valid = append(c16Valid, false, false)
+		// large payloads (position-dependent bytes): a small first chunk followed
+		// by chunks of tens or hundreds of KiB
+		for _, n := range []int{70000, 300000} {
+			big := make([]byte, n)
+			for i := range big {
+				big[i] = byte(i*7 + i>>8)
+			}
+			c16Payloads = append(c16Payloads, big)
+			c16Valid = append(c16Valid, false)
+		}
 	})
 	return c16Payloads, c16Valid
 }
